@@ -207,10 +207,30 @@ def coq_project_files():
     return files
 
 
+def write_coq_project():
+    """_CoqProject lists every .v under coq/ except gen/ (coqdep orders them)."""
+    files = []
+    for dp, dn, fn in os.walk(COQ):
+        dn[:] = sorted(d for d in dn if d != "gen" and not d.startswith("."))
+        for f in sorted(fn):
+            if f.endswith(".v"):
+                files.append(os.path.relpath(os.path.join(dp, f), COQ))
+    body = ("-R . PanVerif\n-arg -w -arg -notation-overridden,-deprecated-hint-without-locality,"
+            "-deprecated-instance-without-locality\n" + "\n".join(sorted(files)) + "\n")
+    path = os.path.join(COQ, "_CoqProject")
+    old = open(path).read() if os.path.exists(path) else None
+    if old != body:
+        with open(path, "w") as f:
+            f.write(body)
+        return True
+    return False
+
+
 def coq_make(targets=None, timeout=3000):
     """Full .vo build (never -vos) through coq_makefile. targets: list of .vo paths
     relative to coq/, or None for everything."""
-    if not os.path.exists(os.path.join(COQ, "Makefile")) or \
+    changed = write_coq_project()
+    if changed or not os.path.exists(os.path.join(COQ, "Makefile")) or \
             os.path.getmtime(os.path.join(COQ, "Makefile")) < os.path.getmtime(os.path.join(COQ, "_CoqProject")):
         rc, log = run(["coq_makefile", "-f", "_CoqProject", "-o", "Makefile"], cwd=COQ)
         if rc != 0:
